@@ -311,7 +311,8 @@ def run(ctx):
         src = c.args[-1] if c.args else None
         locs = {t.id: n.value for n in walk_no_nested(ch.node) if isinstance(n, ast.Assign) for t in n.targets if isinstance(t, ast.Name)}
         expr = locs.get(src.id, src) if isinstance(src, ast.Name) else src
-        if expr is not None and any(isinstance(x, ast.Attribute) and x.attr == "base_format" for x in ast.walk(expr)):
+        via_local = expr is not None and any(isinstance(x, ast.Name) and x.id in locs and any(isinstance(y, ast.Attribute) and y.attr == "base_format" for y in ast.walk(locs[x.id])) for x in ast.walk(expr))
+        if expr is not None and (via_local or any(isinstance(x, ast.Attribute) and x.attr == "base_format" for x in ast.walk(expr))):
             r.ok("CommandHelp: inherited options listed from the format's base chain")
         else:
             r.fail(ch, c, norm(c)[:70], "the inherited-options section of a command page is fed from `%s`, not from the command format's base format: options declared by a parent "
